@@ -526,6 +526,13 @@ func init() {
 				{"print )\nprint 1\n", "print 1 +\n\"s\"\n"},
 				{"def a { x = 1 }", "def a { x = 1 }"},
 			}
+			// both callers run into the same limit / the same kind of run-time error at different places
+			nest := func(lines int) string {
+				return strings.Repeat("\n", lines) + strings.Repeat("def b { ", 17) + "x=1" + strings.Repeat(" }", 17)
+			}
+			for _, p := range [][2]string{{nest(0), nest(3)}, {"print 1/0", "\n\nprint 2/0"}, {"print \"a\" * (0-1)", "\nprint \"b\" * (0-2)"}} {
+				c.Do(subC12, &c12Case{Scenario: "interpret2", A: p[0], B: p[1], Bound: bound, Delay: true})
+			}
 			for _, p := range pairs {
 				c.Do(subC12, &c12Case{Scenario: "opts2", A: p[0], B: p[1], Bound: bound, Delay: true})
 				c.Do(subC12, &c12Case{Scenario: "parse2", A: p[0], B: p[1], Bound: bound + 1, Delay: true})
